@@ -38,19 +38,24 @@ Theorem C03_del_one_map : forall fuel r q i st es k c cx,
 Proof. exact del_loop_one_map. Qed.
 Print Assumptions C03_del_one_map.
 
-(* Several elements of one sequence, any number, visited back to front (how a
-   selection made in document order is processed): each is removed at its
-   original index, "those elements, not their neighbours".  Other visiting
-   orders (unions written in another order) go through the pointer shifting of
-   the model and are tied by the correspondence check: partial. *)
-Theorem C03_del_many_back_to_front_partial : forall r q ps items st cx fuel,
+(* Several elements of one sequence, any number, selected in ANY order (a union
+   written in any order, duplicates already removed by the loop): exactly the
+   selected elements disappear, "those elements, not their neighbours"; all
+   others keep value and relative order. *)
+Theorem C03_del_many_any_order : forall r q ps items st cx fuel,
   deref st (r, q) = Some (Seq items) ->
-  StronglySorted gt ps -> Forall (fun p => (p < length items)%nat) ps -> (length ps <= fuel)%nat ->
+  NoDup ps -> Forall (fun p => (p < length items)%nat) ps -> (length ps <= fuel)%nat ->
   exists cx' items',
     del_loop fuel (List.map (fun p => (r, q ++ [p])) ps) cx st = Ok (cx', update st (r, q) (fun _ => Seq items'))
-    /\ List.map snd items' = fold_left (fun l p => drop_at p l) ps (List.map snd items).
-Proof. exact del_loop_desc. Qed.
-Print Assumptions C03_del_many_back_to_front_partial.
+    /\ List.map snd items' = keep_not_in ps (List.map snd items) O.
+Proof. exact del_loop_any. Qed.
+Print Assumptions C03_del_many_any_order.
+
+(* hence del(s1, s2) and del(s2, s1) on one sequence leave the same elements *)
+Theorem C03_del_union_commutes : forall (A : Type) (p1 p2 : list nat) (l : list A),
+  keep_not_in (p1 ++ p2) l O = keep_not_in (p2 ++ p1) l O.
+Proof. intros A. exact (@keep_not_in_comm A). Qed.
+Print Assumptions C03_del_union_commutes.
 
 (* non-vacuity and the formerly failing witnesses (now repaired in /repo and in the model):
    delete on a re-ordered container removes the selected element, and a node selected twice is deleted once *)
